@@ -517,6 +517,8 @@ type Contract struct {
 	AssignTags []string
 	HasAssigns bool
 	MayPanic bool
+	IsLemma  bool
+	ParamTypes []string
 	GuardedCells [][2]string
 	NoReturn bool
 	Pure     bool
@@ -548,7 +550,7 @@ type SpecFile struct {
 }
 
 var clauseKeywords = map[string]bool{
-	"func": true, "requires": true, "assume": true, "ensures": true, "ghost": true, "on": true, "effect": true,
+	"func": true, "lemma": true, "requires": true, "assume": true, "ensures": true, "ghost": true, "on": true, "effect": true,
 	"loop": true, "assigns": true, "havoc": true, "may-panic": true, "pure": true, "spec": true,
 	"abstract": true, "guarded": true, "no-return": true, "ensures-by": true, "guarded-cell": true, "freevars": true, "trusted": true, "axiom": true,
 }
@@ -688,6 +690,48 @@ func parseSpecFile(path string) (*SpecFile, error) {
 			return fmt.Errorf("%s:%d: %s", path, r.line, fmt.Sprintf(f, a...))
 		}
 		switch r.kw {
+		case "lemma":
+			// lemma NAME(x T, y U): requires/ensures over its own (typed, universally quantified) variables only
+			o := strings.Index(r.text, "(")
+			c := strings.LastIndex(r.text, ")")
+			if o < 0 || c < o {
+				return nil, fail("bad lemma header")
+			}
+			cur = &Contract{Name: "lemma:" + strings.TrimSpace(r.text[:o]), Loops: map[int]*LoopSpec{}, Line: r.line, Props: map[string]bool{}, IsLemma: true}
+			depth, start := 0, o+1
+			var parts []string
+			for i := o + 1; i < c; i++ {
+				switch r.text[i] {
+				case '(', '[', '{':
+					depth++
+				case ')', ']', '}':
+					depth--
+				case ',':
+					if depth == 0 {
+						parts = append(parts, r.text[start:i])
+						start = i + 1
+					}
+				}
+			}
+			parts = append(parts, r.text[start:c])
+			for _, pd := range parts {
+				pd = strings.TrimSpace(pd)
+				if pd == "" {
+					continue
+				}
+				i := strings.IndexAny(pd, " \t")
+				if i < 0 {
+					return nil, fail("lemma variable needs a type: %q", pd)
+				}
+				cur.Params = append(cur.Params, pd[:i])
+				cur.ParamTypes = append(cur.ParamTypes, strings.TrimSpace(pd[i:]))
+			}
+			if _, dup := sf.Contracts[cur.Name]; dup {
+				return nil, fail("duplicate lemma %s", cur.Name)
+			}
+			sf.Contracts[cur.Name] = cur
+			sf.Order = append(sf.Order, cur.Name)
+			rule = nil
 		case "func", "abstract":
 			name, ps, rs, err := parseSig(r.text)
 			if err != nil {
